@@ -239,6 +239,22 @@ for name in names:
             except Exception as e:
                 import traceback
                 wit.append({'key': f'{name}:{libname}:{b}', 'problems': [f'{type(e).__name__}: {e}'[:300], traceback.format_exc()[-400:]]})
+        # a request sitting exactly on the margin-inclusive threshold is served (the verdict blocks only below it): the
+        # CSV must say Pass? = True for it
+        try:
+            _, pp1, _, rq1, _, _ = planning(deepcopy(net0), eqpt, {'path-request': [deepcopy(pool['served'])], 'synchronization': []})
+            worst = round(float(np.min(pp1[0][-1].snr_01nm - pp1[0][-1].total_penalty)), 2)
+            eq_edge = deepcopy(eqpt)
+            margin = eq_edge['SI']['default'].sys_margins
+            for md in eq_edge['Transceiver'][trxname].mode:
+                if md['format'] == m1:
+                    md['OSNR'] = worst - margin
+                    if md['OSNR'] + margin != worst:
+                        md['OSNR'] = float(np.nextafter(md['OSNR'], 100.0)) if md['OSNR'] + margin < worst else float(np.nextafter(md['OSNR'], -100.0))
+            if next(md for md in eq_edge['Transceiver'][trxname].mode if md['format'] == m1)['OSNR'] + margin == worst:
+                check_batch(f'{name}:{libname}:exactly-on-threshold', net0, eq_edge, [pool['served']], [], {str(pool[k]['request-id']): pool[k] for k in pool})
+        except Exception as e:
+            wit.append({'key': f'{name}:{libname}:exactly-on-threshold', 'problems': [f'{type(e).__name__}: {e}'[:300]]})
         try:
             check_batch(f'{name}:{libname}:synchronised', net0, eqpt, [pool['served'], pool['multislot'], pool['bidir']],
                         [sync(0, ['served', 'multislot'])], {str(pool[k]['request-id']): pool[k] for k in pool})
